@@ -17,7 +17,21 @@ from checks import c10
 
 N = int(sys.argv[1]) if len(sys.argv) > 1 else 60
 out = {}
+WIT = {}
+
+
+def keep_witness(key, line, rec, pol):
+    k = f'{YEAR[0]}|{key}|{line}'
+    r = dict(rec)
+    r.pop(f'i:{key}', None)
+    r.pop(f'v:{key}', None)
+    if k not in WIT or len(r) < len(WIT[k]):
+        WIT[k] = r
+
+
+YEAR = [None]
 for year in catalog.YEARS:
+    YEAR[0] = year
     cat = catalog.get(year)
     gates = {}
     for name in sorted(cat.lines):
@@ -53,8 +67,10 @@ for year in catalog.YEARS:
                     g['F_ni' if b == 'not_implemented' else 'F_other'] += 1
                     if a == 'not_implemented' and b != 'not_implemented':
                         g['flip_T'] += 1
+                        keep_witness(key, name, rec, True)
                     if b == 'not_implemented' and a != 'not_implemented':
                         g['flip_F'] += 1
+                        keep_witness(key, name, rec, False)
         hyp.run_data(body, N, 12345)
     res = {}
     for key, lines in gates.items():
@@ -70,3 +86,5 @@ for year in catalog.YEARS:
                     res[key]['mixed'] = True
     out[str(year)] = res
 json.dump(out, sys.stdout, indent=1, sort_keys=True)
+with open('/verif/data/gate_witnesses.json', 'w') as f:
+    json.dump(WIT, f, indent=0, sort_keys=True)
